@@ -6,11 +6,14 @@ from hypothesis import strategies as st
 
 from vk import gen
 
+import os as _os
+
+ENUM_TOP = int(_os.environ.get("VERIF_ENUM_TOP", "6"))  # largest coordinate of the thorough enumeration
 ID = "C07"
 LEVEL = "exploration"
 RULE = (
     "(a) bounded-exhaustive: every (table, queries) pair of multisets of <=2 rows x <=2 queries over coordinates 0..4 "
-    "(quick) or <=2 x <=3 over 0..5 (thorough), in 4 variants (second chromosome in neither/table/queries/both), all "
+    "(quick) or <=2 x <=3 over 0..6 (thorough), in 4 variants (second chromosome in neither/table/queries/both), all "
     "three modes x keep_empty, every in_range bound in {None, 0..max}; (b) Hypothesis: relation-biased tables up to 40 "
     "rows (nested, duplicate, abutting), queries that repeat/overlap, empty tables, single-chromosome fast path, "
     "non-default row index, in_range/in_ranges with start/end None or given, into_ranges over string/float columns with "
@@ -46,10 +49,10 @@ def enumerate_cases(tier):
         Qs = As
         top = 4
     else:
-        ivs = gen.intervals_upto(5)
+        ivs = gen.intervals_upto(ENUM_TOP)
         As = list(gen.multisets(ivs, 2))
         Qs = list(gen.multisets(ivs, 3))
-        top = 5
+        top = ENUM_TOP
     k = 0
     for a in As:
         for q in Qs:
